@@ -938,6 +938,31 @@ def x7(ctx, R):
             if nodes and all(cfg.guarded(x, lambda fc: member(fc.expr, fc.pol)) for x in nodes):
                 ctx.holds("X7", label, "guarded by a dominating membership test")
                 continue
+            # a method of the object itself (self.<dict>[key]) whose every call from code that parse() can run sits behind the
+            # membership test on the same dictionary of the same object
+            if f.cls is not None and f.params and objt.startswith(f.params[0] + "."):
+                sites = []
+                for g in R.reachable():
+                    for c_ in walk_no_nested(g.node):
+                        if isinstance(c_, ast.Call) and call_name(c_) == f.name and g is not f:
+                            sites.append((g, c_))
+                def site_guarded(g, c_):
+                    if not (isinstance(c_.func, ast.Attribute) and g.cls is not None and g.params and norm(c_.func.value) == g.params[0]):
+                        return False
+                    want_obj = g.params[0] + objt[len(f.params[0]):]
+                    cg = ctx.cfg(g)
+
+                    def mem(fc):
+                        e_, pol_ = _atom(fc.expr, fc.pol)
+                        cp_ = cmp_parts(e_)
+                        return bool(cp_ and cp_[1] in ("In", "NotIn") and norm(cp_[2]) == want_obj and const_value(ctx.program, g, cp_[0]) == key
+                                    and pol_ is (cp_[1] == "In"))
+                    nd_ = cg.node_containing(c_)
+                    return bool(nd_) and all(cg.guarded(x, mem) for x in nd_)
+                if sites and all(site_guarded(g, c_) for g, c_ in sites):
+                    ctx.holds("X7", label, "every call of %s that parse() can reach is behind the membership test (%s)" % (
+                        f.qualname, ", ".join(sorted({g.qualname for g, _ in sites}))))
+                    continue
             # extra_arg sub-dictionary: guarded through the test on its parent slot
             ctx.violation("X7", f, "key:%s[%s]" % (objt, key), "%s is evaluated without a test that the key is present" % norm(s), node=s,
                           witness="`require;` : KeyError escapes parse()" if key == "capabilities" else "KeyError escapes parse()")
